@@ -5,7 +5,11 @@ C07 — Culling, write masks and statistics behave as configured.
   `Retro.Props.C07.Masks` : the write masks lifted to whole framebuffers and `render` calls
                             (`drawTris_color_mask`, `drawTris_depth_mask`, `drawTris_discard_all`,
                             `render_color_mask`, `render_depth_mask`, `render_discard_all`, `drawTris_test_none`)
+  `Retro.Props.C07.StatsExact` : the statistics equal what happened — prims.o, verts.o, frags.i, frags.o as
+                            independently defined counts (`render_stats_exact`), additivity over calls
+                            (`render_additive`, `render_additive_sorted`)
 -/
 import Retro.Props.C07.Base
 import Retro.Props.C07.Masks
 import Retro.Props.C07.Examples
+import Retro.Props.C07.StatsExact
